@@ -26,6 +26,13 @@
      (12 modules class_name)                -> introspection.get_class over a package whose walk yields `modules` =
                                                ((name import_ok attr) ...), attr = () | ((id truthy is_class is_subclass));
                                                out = () | (id)
+     (13 ((flags dest_kw dest type default required action nargs) ...))
+                                            -> argparse's reading of the declared options (Cli.opt_dest / opt_kind / opt_may_be_none /
+                                               opt_default): dest_kw = () | (str); type = () | (0 int | 1 float | 2 str | 3 str_to_bool);
+                                               default = () | (lit), lit = (0) None | (1 b) | (2 z) | (3 n d) | (4 str) | (5) [];
+                                               action = 0 store | 1 store_true | 2 store_false | 3 append | 4 count | 5 KVAppendAction;
+                                               nargs = () | ((0 n) | (1) + | (2) * | (3) ?); out per option = (dest kind none default),
+                                               kind = () | (k), k = (0) int | (1) float | (2) str | (3) bool | (4 k) list | (5) dict
    answers : list of list of integers (one per recorded generator call).
    Result: (0 (out requests contract_ok)) | (1 tag); requests encoded as
      (0) | (1 pool k replace) | (2 n k replace) | (3 pool);
@@ -103,8 +110,57 @@ Definition table_world (mods : list (Cli.str * (bool * option obj_t))) : Cli.pyw
     (fun o => snd (fst o))
     (fun _ => Err 34).
 
+(* ---- the argparse option tables (Model/Cli.v, last part) ---- *)
+Definition as_argtype (s : sexp) : option Cli.argtype :=
+  match s with SZ 0 => Some Cli.TInt | SZ 1 => Some Cli.TFloat | SZ 2 => Some Cli.TStr | SZ 3 => Some Cli.TStrToBool | _ => None end.
+Definition as_pylit (s : sexp) : option Cli.pylit :=
+  match s with
+  | SL [SZ 0] => Some Cli.LNone
+  | SL [SZ 1; b] => do b <- as_bool b; Some (Cli.LBool b)
+  | SL [SZ 2; SZ z] => Some (Cli.LInt z)
+  | SL [SZ 3; SZ n; SZ (Zpos d)] => Some (Cli.LFloat n d)
+  | SL [SZ 4; v] => do v <- as_Zs v; Some (Cli.LStr v)
+  | SL [SZ 5] => Some Cli.LEmptyList
+  | _ => None
+  end.
+Definition of_pylit (d : Cli.pylit) : sexp :=
+  match d with
+  | Cli.LNone => SL [SZ 0] | Cli.LBool b => SL [SZ 1; of_bool b] | Cli.LInt z => SL [SZ 2; SZ z]
+  | Cli.LFloat n d => SL [SZ 3; SZ n; SZ (Zpos d)] | Cli.LStr v => SL [SZ 4; of_Zs v] | Cli.LEmptyList => SL [SZ 5]
+  end.
+Definition as_argaction (s : sexp) : option Cli.argaction :=
+  match s with
+  | SZ 0 => Some Cli.ActStore | SZ 1 => Some Cli.ActStoreTrue | SZ 2 => Some Cli.ActStoreFalse | SZ 3 => Some Cli.ActAppend
+  | SZ 4 => Some Cli.ActCount | SZ 5 => Some Cli.ActKVAppend | _ => None
+  end.
+Definition as_argnargs (s : sexp) : option Cli.argnargs :=
+  match s with
+  | SL [SZ 0; SZ n] => Some (Cli.NInt n) | SL [SZ 1] => Some Cli.NPlus | SL [SZ 2] => Some Cli.NStar | SL [SZ 3] => Some Cli.NOpt
+  | _ => None
+  end.
+Definition as_argopt (s : sexp) : option Cli.argopt :=
+  match s with
+  | SL [flags; dkw; dest; ty; dflt; req; act; nargs] =>
+      do flags <- as_listof as_Zs flags; do dkw <- as_option as_Zs dkw; do dest <- as_Zs dest; do ty <- as_option as_argtype ty;
+      do dflt <- as_option as_pylit dflt; do req <- as_bool req; do act <- as_argaction act; do nargs <- as_option as_argnargs nargs;
+      Some (Cli.mk_argopt flags dkw dest ty dflt req act nargs None)
+  | _ => None
+  end.
+Fixpoint of_nskind (k : Cli.nskind) : sexp :=
+  match k with
+  | Cli.KInt => SL [SZ 0] | Cli.KFloat => SL [SZ 1] | Cli.KStr => SL [SZ 2] | Cli.KBool => SL [SZ 3]
+  | Cli.KList e => SL [SZ 4; of_nskind e] | Cli.KKV => SL [SZ 5]
+  end.
+Definition of_argopt_reading (o : Cli.argopt) : sexp :=
+  SL [of_Zs (Cli.opt_dest o); of_option of_nskind (Cli.opt_kind o); of_bool (Cli.opt_may_be_none o); of_pylit (Cli.opt_default o)].
+
 Definition run_c18 (orc : oracle) (s : sexp) : sexp :=
   match s with
+  | SL [SZ 13; opts] =>
+      match as_listof as_argopt opts with
+      | Some opts => of_list of_argopt_reading opts
+      | None => bad_input
+      end
   | SL [SZ 7; lower_s] =>
       match as_Zs lower_s with
       | Some l => of_result of_bool (Cli.str_to_bool (table_prims [] []) (l : Cli.str))
